@@ -93,17 +93,26 @@ func (a *kAggregate) Next(ctx context.Context) ([]model.StepVector, error) {
 	// The parameter is validated at every step, also when there is no input
 	// left to aggregate: an invalid k fails the query even over empty data.
 	if len(in) == 0 {
-		for i := range args {
-			if len(args[i].Samples) > 0 && !convertibleToInt64(args[i].Samples[0]) {
-				return nil, errors.Newf("Scalar value %v overflows int64", args[i].Samples[0])
+		for {
+			for i := range args {
+				if len(args[i].Samples) > 0 && !convertibleToInt64(args[i].Samples[0]) {
+					return nil, errors.Newf("Scalar value %v overflows int64", args[i].Samples[0])
+				}
+				a.paramOp.GetPool().PutStepVector(args[i])
 			}
-			a.paramOp.GetPool().PutStepVector(args[i])
+			a.paramOp.GetPool().PutVectors(args)
+			if !ended {
+				return a.vectorPool.GetVectorBatch(), nil
+			}
+			// The input has ended and nobody will ask for another batch: check
+			// the parameter of the remaining steps right away.
+			if args, err = a.paramOp.Next(ctx); err != nil {
+				return nil, err
+			}
+			if args == nil {
+				return nil, nil
+			}
 		}
-		a.paramOp.GetPool().PutVectors(args)
-		if ended {
-			return nil, nil
-		}
-		return a.vectorPool.GetVectorBatch(), nil
 	}
 	for i := range a.params {
 		a.params[i] = math.NaN()
